@@ -40,9 +40,45 @@ func zz13BuildSrc() *zz13Src {
 		sc.commits = append(sc.commits, c)
 		sc.tables = append(sc.tables, sum)
 	}
-	add(2, "x", 1600000000)
-	add(3, "y", 1600000100, 0)
+	switch zzverif.Param("shape", 0) {
+	case 0: // chain of two
+		add(2, "x", 1600000000)
+		add(3, "y", 1600000100, 0)
+	case 1: // fork and merge, one table of two blocks, one table carried by two commits
+		add(2, "x", 1600000000)
+		add(256, "y", 1600000100, 0)
+		add(3, "z", 1600000100, 0)
+		add(256, "y", 1600000200, 1, 2)
+	}
 	return sc
+}
+
+// zz13Pre gives the destination what it already has before the fetch starts.
+func zz13Pre(sc *zz13Src, db *zzrepo.ObjStore) {
+	if zzverif.Param("pre", 0) == 1 {
+		for k, v := range sc.src.M {
+			_ = v
+			zzrepo.CopyKey(db, sc.src, k)
+		}
+		// ... everything of the first commit only: drop the rest again
+		keep := map[string]bool{}
+		first := zzrepo.NewObjStore()
+		_ = first
+		t, _ := objects.GetTable(sc.src, sc.tables[0])
+		keep["com/"+string(sc.commits[0].Sum)] = true
+		for _, p := range []string{"tbl/", "tblidx/", "tblsum/"} {
+			keep[p+string(sc.tables[0])] = true
+		}
+		for i, b := range t.Blocks {
+			keep["blk/"+string(b)] = true
+			keep["blkidx/"+string(t.BlockIndices[i])] = true
+		}
+		for k := range db.M {
+			if !keep[k] {
+				delete(db.M, k)
+			}
+		}
+	}
 }
 
 func zz13Fetch(sc *zz13Src, db *zzrepo.ObjStore, rs *zzrepo.RefStore, max uint64) error {
@@ -122,6 +158,7 @@ func Harness_C13_receive() {
 	max := uint64(zzverif.Param("maxPack", 0))
 	probe := &zzrepo.Fault{}
 	pdb, prs := zzrepo.NewObjStore(), zzrepo.NewRefStore()
+	zz13Pre(sc, pdb)
 	pdb.F, prs.F = probe, probe
 	if err := zz13Fetch(sc, pdb, prs, max); err != nil {
 		panic(err)
@@ -129,6 +166,7 @@ func Harness_C13_receive() {
 	total := probe.Writes
 	db, rs := zzrepo.NewObjStore(), zzrepo.NewRefStore()
 	f := &zzrepo.Fault{At: zzverif.Int("faultAt", 1, total), Kind: zzverif.Choose("faultKind", 2)}
+	zz13Pre(sc, db)
 	db.F, rs.F = f, f
 	crashed, err := zzrepo.TryCrash(func() error { return zz13Fetch(sc, db, rs, max) })
 	zzverif.Assert("fault-surfaces-as-crash-or-error", crashed || err != nil)
